@@ -298,6 +298,24 @@ def b_type(ex, ctx, st, args, kwargs, node):
     return mk_py(TypeOf(v))
 
 
+def type_is(ex, ctx, st, v, cls_obj, node=None):
+    """type(v) is cls_obj (exact class: bool is not int; subclasses registered with `bases` are other classes)."""
+    if not isinstance(cls_obj, type):
+        return False
+    if cls_obj is int:
+        if v.k == "any":
+            return ex.tag_test(v, "int")
+        if v.k == "py":
+            return type(v.py) is int
+        return v.k == "int"
+    name = getattr(cls_obj, "__name__", None)
+    if name in ex.reg.classes and not ex.reg.classes[name].container:
+        if v.k == "py":
+            return False
+        return _ref_has_class(ex, v, [name])
+    return class_test(ex, ctx, st, v, cls_obj, node)
+
+
 def b_hasattr(ex, ctx, st, args, kwargs, node):
     v, n = args
     ok, name = const_of(n)
